@@ -8,7 +8,9 @@ RULE = ('for every operation variant of the C05 table, a dry run lists every I/O
         'for EVERY such call k a child runs the operation with exactly that call raising (EIO/ENOSPC for writes, PermissionError for '
         'rename-family, OperationalError for SQL) instead of being performed; the child records completed/raised and exits; the folder is '
         'read raw and through a fresh Container (C05 oracle), then stale *.lock files are removed and the operation is re-run by a new '
-        'process: views == model, raw consistency, validate() (interrupted repacks excepted). Distinct = (variant, call index, errno).')
+        'process: views == model, raw consistency, validate() (interrupted repacks excepted). Additionally (E5) a real errno (ENOSPC for write/pwrite64/'
+        'ftruncate, EIO otherwise) is injected by strace into the n-th real syscall of an uninstrumented run, so CPython\'s and SQLite\'s own '
+        'error handling (SQLITE_FULL, SQLITE_IOERR, rollback) is what is exercised. Distinct = (variant, call index, errno).')
 ASSUMPTIONS = ['the injected error replaces the call (nothing of it reaches the disk); partial effects inside one call are syscall-level (thorough E5)',
                'one fault per run']
 TECHNIQUE = 'runtime fault injection: one injected OSError/OperationalError at every interposed I/O call of every operation variant + on-disk oracle + successful re-run'
@@ -17,10 +19,13 @@ LEVEL_NOTE = 'trusted: the interposition layer (audit-hook guarded); injected er
 
 def run(ctx):
     for c in ('faults-injected', 'oracle-evaluations', 'reruns', 'outcome:raised', 'outcome:completed',
-              'interrupted-repacks-not-rerun'):
+              'interrupted-repacks-not-rerun', 'sys-faults', 'sys-reruns'):
         ctx.require(c)
     ctx.exhaustive = True
     ctx.map(crashchecks.run_fault_variant, crashchecks.variant_cases(ctx, PROPERTY, 'fault'))
+    # real errno injected into the n-th real syscall (strace): CPython's and SQLite's own error paths are exercised
+    sys_names = None if not ctx.quick else ['add_object:new@', 'pack_all_loose:yes:clpp=1@', 'clean_storage@']
+    ctx.map(crashchecks.run_sys_variant, crashchecks.sys_cases(ctx, PROPERTY, 'sysfault', names=sys_names, limit=ctx.pick(5, 30)))
     ctx.extra['exhaustive_scope'] = 'every interposed I/O call of each listed variant/pre-state pair, one errno class per call kind (quick)'
 
 
